@@ -445,7 +445,10 @@ func (m *Manager) addTCPConnection(allocation *Allocation, conn net.Conn) (proto
 	tcpConn := &tcpConnection{conn, atomic.Bool{}, nil}
 	allocation.tcpConnections[connectionID] = tcpConn
 	tcpConn.bindTimer = time.AfterFunc(m.tcpConnectionBindTimeout, func() {
-		if !tcpConn.isBound.Load() {
+		// Claim the connection atomically: a ConnectionBind that arrives at the
+		// deadline either wins (the timer then leaves the connection alone) or
+		// is refused, but never succeeds on a connection that is being removed.
+		if !tcpConn.isBound.Swap(true) {
 			m.log.Warnf("Removing TCP Connection that was never bound %v %v", connectionID, allocation.fiveTuple)
 			allocation.RemoveTCPConnection(m, connectionID)
 		}
